@@ -1,5 +1,6 @@
 import SpVerif.Lemmas.Area
 import SpVerif.Lemmas.Winding
+import SpVerif.Lemmas.Reverse
 /-!
 # C15 — oriented() normalises ring direction without changing the shape
 
@@ -197,6 +198,69 @@ theorem C15_point_intersection_unchanged (p : Pt) (shell : List Pt) (holes : Lis
     cases hc : winding p (shell :: holes) != 0 with
     | true => simp only [bne_iff_ne, ne_eq] at hc ⊢; omega
     | false => simp only [bne_eq_false_iff_eq] at hc ⊢; omega
+
+theorem mem_flatten_map_reverse (rings : List (List Pt)) (p : Pt) :
+    p ∈ (rings.map List.reverse).flatten ↔ p ∈ rings.flatten := by
+  simp only [List.mem_flatten, List.mem_map]
+  constructor
+  · rintro ⟨l, ⟨r, hr, rfl⟩, hp⟩; exact ⟨r, hr, List.mem_reverse.mp hp⟩
+  · rintro ⟨r, hr, hp⟩; exact ⟨r.reverse, ⟨r, hr, rfl⟩, List.mem_reverse.mpr hp⟩
+
+/-- **box-intersection results are unchanged**: for a polygon with closed rings of non-zero area whose holes are wound opposite
+to its shell (either way round) and lie within the shell's bounding box, `intersects_bounds` gives the same answer for the
+oriented polygon, for every box of positive width and height -/
+theorem C15_box_intersection_unchanged (bx : Box) (hx : bx.x0 ≠ bx.x1) (hy : bx.y0 ≠ bx.y1) (shell : List Pt)
+    (holes : List (List Pt)) (hcl : ∀ r ∈ shell :: holes, Closed r) (hsh : bboxOf (shell :: holes).flatten = bboxOf shell)
+    (hcons : (0 < ringArea2 shell ∧ ∀ h ∈ holes, ringArea2 h < 0) ∨ (ringArea2 shell < 0 ∧ ∀ h ∈ holes, 0 < ringArea2 h)) :
+    polygonIB bx (orientRings (shell :: holes)) = polygonIB bx (shell :: holes) := by
+  rcases hcons with ⟨h0, hneg⟩ | ⟨h0, hpos⟩
+  · have e : orientRings (shell :: holes) = shell :: holes := by
+      simp only [orientRings]
+      have : ¬ ringArea2 shell < 0 := by omega
+      simp only [this, if_false]
+      congr 1
+      conv => rhs; rw [← List.map_id holes]
+      apply List.map_congr_left
+      intro h hm
+      have := hneg h hm
+      have : ¬ ringArea2 h > 0 := by omega
+      simp [this]
+    rw [e]
+  · have e : orientRings (shell :: holes) = shell.reverse :: holes.map List.reverse := by
+      simp only [orientRings, h0, if_true]
+      congr 1
+      apply List.map_congr_left
+      intro h hm
+      have := hpos h hm
+      simp [this]
+    rw [e]
+    have px : (orientBox bx).x0 < (orientBox bx).x1 ∧ (orientBox bx).y0 < (orientBox bx).y1 := by
+      simp only [orientBox]; constructor <;> split <;> omega
+    have hcl' : ∀ r ∈ shell.reverse :: holes.map List.reverse, Closed r := by
+      intro r hr
+      rcases List.mem_cons.mp hr with rfl | hr
+      · exact closed_reverse shell (hcl shell (by simp))
+      · obtain ⟨r0, hr0, rfl⟩ := List.mem_map.mp hr
+        exact closed_reverse r0 (hcl r0 (List.mem_cons_of_mem _ hr0))
+    have hsh' : bboxOf (shell.reverse :: holes.map List.reverse).flatten = bboxOf shell.reverse := by
+      have e1 : bboxOf (shell.reverse :: holes.map List.reverse).flatten = bboxOf (shell :: holes).flatten := by
+        apply bboxOf_congr
+        intro p
+        have := mem_flatten_map_reverse (shell :: holes) p
+        simpa using this
+      have e2 : bboxOf shell.reverse = bboxOf shell := bboxOf_congr _ _ (fun p => List.mem_reverse)
+      rw [e1, e2, hsh]
+    have i1 := polygonIBcore_iff (orientBox bx) px.1 px.2 shell.reverse (holes.map List.reverse) hcl' hsh'
+    have i2 := polygonIBcore_iff (orientBox bx) px.1 px.2 shell holes hcl hsh
+    have hpp : ∀ q, PolyPoint (shell.reverse :: holes.map List.reverse) q ↔ PolyPoint (shell :: holes) q := by
+      intro q
+      have := polyPoint_map_reverse (shell :: holes) q
+      simpa using this
+    unfold polygonIB
+    rw [Bool.eq_iff_iff, i1, i2]
+    constructor
+    · rintro ⟨q, hq, hp⟩; exact ⟨q, hq, (hpp q).mp hp⟩
+    · rintro ⟨q, hq, hp⟩; exact ⟨q, hq, (hpp q).mpr hp⟩
 
 /-! non-vacuity: clockwise shell with a counter-clockwise hole (consistently wound, "the other way round") -/
 example : orientRings [[(0,0),(0,6),(6,6),(6,0),(0,0)], [(1,1),(3,1),(3,3),(1,3),(1,1)]]
